@@ -17,6 +17,15 @@ import json, os, itertools
 from fractions import Fraction as Fr
 from core import *
 
+def read_switches():
+    """the repair switches of the models (stage 1: false = the code as it is now; the coordinator flips them with the fix)"""
+    import re as _re
+    sw = {}
+    for f in ("Replace.v", "Yaml.v"):
+        for m in _re.finditer(r"Definition (fixed_\w+) : bool := (true|false)\.", open(os.path.join(COQ, "theories", f)).read()):
+            sw[m.group(1)] = m.group(2) == "true"
+    return sw
+
 NEEDS = ["Replace", "ReplaceProofs", "Yaml", "YamlProofs", "Corr", "PyLib", "ReplaceEquiv", "Gen_replace"]
 ALPHA = "ra_2+= ("
 ALPHA2 = "ra_2+= (,^)."            # second sweep: the delimiters , ^ ) . in front of / behind an occurrence
@@ -28,11 +37,17 @@ SEP = "|"
 # Python transcriptions of the Coq definitions (used on the large exhaustive space only)
 # ====================================================================================================
 DELIMS = '-+=*/^<>=!.%@[]():, '
+DELIMS_SPEC = DELIMS + "'"               # Replace.is_delim_spec: for the reader an identifier ends at the derivative mark
+_IMPL_DELIMS = []
+def impl_delims():                       # Replace.is_delim: the set of the code (with ' once the switch fixed_prime is flipped)
+    if not _IMPL_DELIMS:
+        _IMPL_DELIMS.append(DELIMS_SPEC if read_switches().get("fixed_prime") else DELIMS)
+    return _IMPL_DELIMS[0]
 
 def py_words(s):
     out, cur = [], ""
     for c in s:
-        if c in DELIMS:
+        if c in DELIMS_SPEC:
             if cur:
                 out.append(cur)
             out.append(c); cur = ""
@@ -62,7 +77,7 @@ def py_loop(eq, term, rep, rhs, lhs):                      # Replace.loopA (what
         follow = idx + n
         before = prev if idx == 0 else s[idx - 1]
         rest = s[follow:]
-        bound = (rest == "" or rest[0] in DELIMS) and (before is None or before in DELIMS)
+        bound = (rest == "" or rest[0] in impl_delims()) and (before is None or before in impl_delims())
         part = s[:idx]
         in_rhs = seen or "=" in part
         side = (rhs and in_rhs) or (lhs and not in_rhs) or (not rhs and not lhs)
@@ -75,7 +90,8 @@ def py_loop(eq, term, rep, rhs, lhs):                      # Replace.loopA (what
 # impl side (worker)
 # ====================================================================================================
 def impl(case):
-    return {"rep": impl_rep, "exh": impl_exh, "upd": impl_upd, "yaml": impl_yaml}[case["kind"]](case)
+    return {"rep": impl_rep, "exh": impl_exh, "upd": impl_upd, "yaml": impl_yaml, "reuse": impl_reuse, "npy": impl_npy,
+            "mfile": impl_mfile, "err": impl_err}[case["kind"]](case)
 
 def impl_rep(case):
     from pyrates.backend.parser import replace
@@ -316,6 +332,199 @@ def impl_yaml(case):
             os.remove("x.yaml")
         pyr.reset_pyrates()
 
+# ---------------------------------------------------------------------------------------------- reuse of an edit dict (D99)
+def impl_reuse(case):
+    """several derivations from one base template with the SAME edit dictionary object"""
+    import copy
+    import pyr
+    from pyrates.frontend.template.operator import OperatorTemplate
+    pyr.reset_pyrates()
+    try:
+        b = case["base"]
+        base = OperatorTemplate(name="op0", equations=list(b["equations"]), variables=dict(b["variables"]))
+        e = copy.deepcopy(case["edit"])
+        outs = []
+        for i in range(case["times"]):
+            d = base.update_template(name=None if i % 2 else f"d{i}", equations=e, variables=copy.deepcopy(case["variables"]) or None)
+            outs.append(dict(equations=list(d.equations), variables=[[k, vtext(v)] for k, v in d.variables.items()]))
+        return dict(derived=outs, edit_after=e)
+    finally:
+        pyr.reset_pyrates()
+
+# ---------------------------------------------------------------------------------------------- loud failures of the loader
+ERR_EXPECTED = {"no_module": "PyRatesException", "bare_path": "NotImplementedError", "no_base": "KeyError", "no_template": "AttributeError",
+                "no_file": "FileNotFoundError", "bad_equations_type": "TypeError", "wrong_class": "TypeError"}
+
+def impl_err(case):
+    """references that cannot be resolved and malformed arguments fail loudly, with the documented exception"""
+    import pyr
+    from pyrates.frontend import CircuitTemplate, OperatorTemplate
+    pyr.reset_pyrates()
+    try:
+        json.dump({"op": {"base": "OperatorTemplate", "equations": ["d/dt * r = -r"], "variables": {"r": "output(0.5)"}},
+                   "nobase": {"equations": ["d/dt * r = -r"], "variables": {"r": "output(0.5)"}}}, open("e.yaml", "w"))
+        w = case["what"]
+        try:
+            if w == "no_module":
+                OperatorTemplate.from_yaml("nosuchpackage.file.op")
+            elif w == "bare_path":
+                OperatorTemplate.from_yaml("op")
+            elif w == "no_base":
+                OperatorTemplate.from_yaml("e/nobase")
+            elif w == "no_template":
+                OperatorTemplate.from_yaml("e/nosuch")
+            elif w == "no_file":
+                OperatorTemplate.from_yaml("nosuchfile/op")
+            elif w == "wrong_class":
+                CircuitTemplate.from_yaml("e/op")
+            elif w == "bad_equations_type":
+                OperatorTemplate.from_yaml("e/op").update_template(name="x", equations=5)
+            return "no exception"
+        except Exception as e:
+            return type(e).__name__
+    finally:
+        if os.path.exists("e.yaml"):
+            os.remove("e.yaml")
+        pyr.reset_pyrates()
+
+# ---------------------------------------------------------------------------------------------- numpy values in to_yaml
+def impl_npy(case):
+    """a circuit whose values were set with numpy scalars (update_var, add_edges_from_matrix) must be writable"""
+    import numpy as np
+    import pyr
+    from pyrates.frontend import CircuitTemplate
+    pyr.reset_pyrates()
+    out = {}
+    try:
+        c = build_circuit(case)
+        if case["node_vars"]:
+            c.update_var(node_vars={k: np.float64(v) for k, v in case["node_vars"].items()})
+        if case["matrix"]:
+            m = case["matrix"]
+            c.add_edges_from_matrix(m["source_var"], m["target_var"], m["nodes"], weight=np.array(m["weight"], dtype=np.float64))
+        out["vf0"] = vector_field(c, "f0", case["points"])
+        if os.path.exists("x.yaml"):
+            os.remove("x.yaml")
+        try:
+            c.to_yaml("x.yaml")
+        except Exception as e:
+            out["dump_error"] = type(e).__name__
+            return out
+        pyr.reset_pyrates()
+        c2 = CircuitTemplate.from_yaml("x/" + case["tree"]["name"])
+        out["vf1"] = vector_field(c2, "f1", case["points"])
+        return out
+    finally:
+        if os.path.exists("x.yaml"):
+            os.remove("x.yaml")
+        pyr.reset_pyrates()
+
+# ---------------------------------------------------------------------------------------------- template sets over several files
+def mresolve(cur, ref):
+    """Yaml.resolve: a bare name lives in the file of the template that contains the reference"""
+    return (cur, ref[1]) if ref[0] == "bare" else (ref[1], ref[2])
+
+def spell(cur, ref):
+    """how the reference is written in the YAML file `cur`: files `pkg.x` are addressed as python modules (pkg/x.yaml),
+    the file `lib1` lies in the directory named after the main file (main/lib1.yaml) and is addressed as lib1/<name> from main"""
+    if ref[0] == "bare":
+        return ref[1]
+    return f"{ref[1]}.{ref[2]}" if "." in ref[1] else f"{ref[1]}/{ref[2]}"
+
+def file_path(fid):
+    return {"main": "main.yaml", "lib1": os.path.join("main", "lib1.yaml")}.get(fid) or os.path.join(*fid.split(".")) + ".yaml"
+
+def load_path(fid, name):
+    return {"main": f"main/{name}", "lib1": f"main/lib1/{name}"}.get(fid) or f"{fid}.{name}"
+
+def write_files(case):
+    import importlib
+    os.makedirs("main", exist_ok=True); os.makedirs("pkg", exist_ok=True)
+    open(os.path.join("pkg", "__init__.py"), "w").close()
+    importlib.invalidate_caches()
+    for fid, tpls in case["files"].items():
+        doc = {}
+        for name, e in tpls.items():
+            if e["base"] == "OperatorTemplate":
+                doc[name] = dict(base=e["base"], equations=e["equations"], variables=e["variables"])
+            elif e["base"] in ("NodeTemplate", "EdgeTemplate"):
+                ops = {spell(fid, r): u for r, u in e["operators"]}
+                doc[name] = dict(base=e["base"], operators=ops if any(ops.values()) else list(ops))
+            else:
+                doc[name] = dict(base=e["base"], circuits={k: spell(fid, r) for k, r in e["circuits"]}, nodes={k: spell(fid, r) for k, r in e["nodes"]},
+                                 edges=[[s, t, None if r is None else spell(fid, r), at] for s, t, r, at in e["edges"]])
+        json.dump(doc, open(file_path(fid), "w"))
+
+def remove_files(case):
+    import shutil
+    for f in ("main.yaml",):
+        if os.path.exists(f):
+            os.remove(f)
+    shutil.rmtree("main", ignore_errors=True); shutil.rmtree("pkg", ignore_errors=True)
+
+def mbuild(case):
+    """the same model built with the Python classes: every reference resolved by Yaml.resolve (mresolve), one object per template"""
+    from pyrates.frontend import CircuitTemplate, NodeTemplate, EdgeTemplate, OperatorTemplate
+    cache, files = {}, case["files"]
+    def get(fid, name, base):
+        e = files.get(fid, {}).get(name)
+        if e is None or (e["base"] != base):
+            raise KeyError(f"{fid}:{name}")
+        return e
+    def op(cur, ref):
+        fid, name = mresolve(cur, ref)
+        if ("op", fid, name) not in cache:
+            e = get(fid, name, "OperatorTemplate")
+            cache[("op", fid, name)] = OperatorTemplate(name=name, equations=list(e["equations"]), variables=dict(e["variables"]))
+        return cache[("op", fid, name)]
+    def node(cur, ref, cls, base):
+        fid, name = mresolve(cur, ref)
+        if (base, fid, name) not in cache:
+            e = get(fid, name, base)
+            cache[(base, fid, name)] = cls(name=name, operators={op(fid, r): dict(u) for r, u in e["operators"]})
+        return cache[(base, fid, name)]
+    def circ(cur, ref):
+        fid, name = mresolve(cur, ref)
+        e = get(fid, name, "CircuitTemplate")
+        edges = [(s, t, None if r is None else node(fid, r, EdgeTemplate, "EdgeTemplate"), dict(at)) for s, t, r, at in e["edges"]]
+        if e["circuits"]:
+            return CircuitTemplate(name=name, circuits={k: circ(fid, r) for k, r in e["circuits"]}, edges=edges)
+        return CircuitTemplate(name=name, nodes={k: node(fid, r, NodeTemplate, "NodeTemplate") for k, r in e["nodes"]}, edges=edges)
+    return circ(case["top"][0], ["bare", case["top"][1]])
+
+def impl_mfile(case):
+    import pyr
+    from pyrates.frontend import CircuitTemplate
+    pyr.reset_pyrates()
+    out = {}
+    try:
+        remove_files(case)
+        write_files(case)
+        try:
+            built = mbuild(case)
+            out["walk_built"] = walk(built)
+        except KeyError as e:
+            built, out["walk_built"] = None, None
+        try:
+            loaded = CircuitTemplate.from_yaml(load_path(*case["top"]))
+            out["walk_loaded"] = walk(loaded)
+        except Exception as e:
+            loaded, out["walk_loaded"] = None, None
+            out["load_error"] = f"{type(e).__name__}: {str(e)[:160]}"
+        if built is not None and loaded is not None:
+            out["vf_built"] = vector_field(built, "f0", case["points"])
+            pyr.reset_pyrates()
+            try:
+                loaded = CircuitTemplate.from_yaml(load_path(*case["top"]))
+                out["vf_loaded"] = vector_field(loaded, "f1", case["points"])
+            except Exception as e:
+                out["vf_loaded"] = None
+                out["compile_error"] = f"{type(e).__name__}: {str(e)[:160]}"
+        return out
+    finally:
+        remove_files(case)
+        pyr.reset_pyrates()
+
 # ====================================================================================================
 # generators
 # ====================================================================================================
@@ -342,7 +551,11 @@ def gen_rep(rng):
 def gen_rep_case(rng):
     f = rng.random()
     rhs, lhs = (False, False) if f < 0.7 else rng.choice(FLAGS)
-    return dict(kind="rep", eq=gen_equation(rng, rng.randint(1, 30)), term=gen_term(rng, rng.random() < 0.9), rep=gen_rep(rng), rhs=rhs, lhs=lhs)
+    eq = gen_equation(rng, rng.randint(1, 30))
+    term = gen_term(rng, rng.random() < 0.9)
+    if rng.random() < 0.2:                 # primed left-hand side `x' = ...` (derivative mark), sometimes of the term itself
+        eq = (term if rng.random() < 0.6 and " " not in term else rng.choice(IDENTS)) + "' = " + eq
+    return dict(kind="rep", eq=eq, term=term, rep=gen_rep(rng), rhs=rhs, lhs=lhs)
 
 SPECS = [2.0, 0.5, -1.25, "input(0.0)", "output(0.5)", "variable(0.25)", 3]
 
@@ -374,7 +587,19 @@ def gen_upd_case(rng):
         if rng.random() < (0.85 if in_guard else 0.5):
             varg = {rng.choice(IDENTS): rng.choice(SPECS) for _ in range(rng.randint(1, 2))}
         chain.append(dict(equations=eqarg, variables=varg))
+    if not in_guard and rng.random() < 0.4:
+        eqs[0] = rng.choice(names) + "' = " + eqs[0]
     return dict(kind="upd", base=dict(equations=eqs, variables=variables), chain=chain)
+
+def gen_reuse_case(rng):
+    """one edit dictionary (often with `add`) used for 1-3 derivations from the same base"""
+    eqs = [gen_equation(rng, rng.randint(3, 8)) for _ in range(rng.randint(1, 2))]
+    variables = {v: rng.choice(SPECS) for v in rng.sample(IDENTS, rng.randint(2, 5))}
+    e = gen_edit(rng, True)
+    if rng.random() < 0.7:
+        e["add"] = [gen_equation(rng, 5) for _ in range(rng.randint(1, 2))]
+    vupd = {rng.choice(IDENTS): rng.choice(SPECS)} if rng.random() < 0.6 else {}
+    return dict(kind="reuse", base=dict(equations=eqs, variables=variables), edit=e, variables=vupd, times=rng.randint(1, 3))
 
 # ---- circuits
 OPLIB = {
@@ -491,6 +716,79 @@ def gen_yaml_case(rng, mode=None):
     points = [[str(Fr(rng.randint(-8, 8), 8)) for _ in range(6)] for _ in range(2)]
     return dict(kind="yaml", mode=mode, ops=OPLIB, tree=tree, points=points)
 
+def gen_npy_case(rng):
+    n = rng.randint(2, 3)
+    nodes = [[f"p{i}", dict(name="n0", ops=[["opa", {}]])] for i in range(n)]
+    node_vars = {f"p{rng.randrange(n)}/opa/k": rng.choice(DY)} if rng.random() < 0.7 else {}
+    matrix = None
+    if not node_vars or rng.random() < 0.6:
+        matrix = dict(source_var="opa/r", target_var="opa/r_in", nodes=[k for k, _ in nodes],
+                      weight=[[rng.choice([0.0, 0.5, 2.0, -0.75, 1.0]) for _ in range(n)] for _ in range(n)])
+    points = [[str(Fr(rng.randint(-8, 8), 8)) for _ in range(6)] for _ in range(2)]
+    return dict(kind="npy", ops=OPLIB, tree=dict(name="net", subs=[], nodes=nodes, edges=[]), node_vars=node_vars, matrix=matrix, points=points)
+
+MFILES = ["main", "lib1", "pkg.lib2", "pkg.lib3"]
+MALLOWED = {"main": ["lib1", "pkg.lib2", "pkg.lib3"], "lib1": ["pkg.lib2", "pkg.lib3"], "pkg.lib2": ["pkg.lib3"], "pkg.lib3": ["pkg.lib2"]}
+
+def gen_mfile_case(rng):
+    """2-4 YAML files that define templates of the same names with different parameters; references bare and into other
+    files, in every order, for operators, nodes, edge templates and sub-circuits; variable definitions in all their forms"""
+    used = ["main"] + [f for f in MFILES[1:] if rng.random() < 0.7]
+    if len(used) == 1:
+        used.append("pkg.lib2")
+    top_file = rng.choice([f for f in used if f in ("main", "main", "pkg.lib2")])
+    def ref(cur, name, p_cross=0.45):
+        cand = [f for f in MALLOWED[cur] if f in used]
+        if cand and rng.random() < p_cross:
+            return ["file", rng.choice(cand), name]
+        return ["bare", name]
+    kforms = [2.0, 3, "1.5", 0.75, "2.5", 1, 0.5]
+    rng.shuffle(kforms)
+    files = {}
+    for i, fid in enumerate(used):
+        files[fid] = {
+            "opa": dict(base="OperatorTemplate", equations=["d/dt * r = -k*r + r_in"],
+                        variables={"r": rng.choice(["output(0.5)", "output(0.25)", "output(float)"]), "k": kforms[i % len(kforms)],
+                                   "r_in": rng.choice(["input(0.0)", "input", "input(float)"])}),
+            "opc": dict(base="OperatorTemplate", equations=["d/dt * rr = (r_in - rr)*kk + r_in*rr*0.5"],
+                        variables={"rr": rng.choice(["output(0.25)", "variable(0.5)"]), "kk": kforms[(i + 3) % len(kforms)], "r_in": "input(0.0)"}),
+            "eop": dict(base="OperatorTemplate", equations=["m_out = g*x_in*x_in"],
+                        variables={"m_out": "output(0.0)", "x_in": "input(0.0)", "g": rng.choice(DY[:8])}),
+        }
+    for fid in used:
+        f = files[fid]
+        f["pop"] = dict(base="NodeTemplate", operators=[[ref(fid, "opa"), {"k": rng.choice(DY)} if rng.random() < 0.3 else {}]])
+        f["pop2"] = dict(base="NodeTemplate", operators=[[ref(fid, "opc"), {"kk": rng.choice(DY)} if rng.random() < 0.3 else {}]])
+        f["et"] = dict(base="EdgeTemplate", operators=[[ref(fid, "eop"), {"g": rng.choice(DY[:8])} if rng.random() < 0.3 else {}]])
+    VARS = {"pop": ("opa/r", "opa/r_in"), "pop2": ("opc/rr", "opc/r_in")}
+    def edges_for(fid, nodes, prefix_of=None, k=None):
+        es = []
+        for _ in range(rng.randint(1, 3) if k is None else k):
+            (s, sk), (t, tk) = rng.choice(nodes), rng.choice(nodes)
+            es.append([f"{s}/{VARS[sk][0]}", f"{t}/{VARS[tk][1]}", ref(fid, "et", 0.4) if rng.random() < 0.5 else None,
+                       {"weight": rng.choice([1.0, 0.5, 2.0, -0.75, 0.0])}])
+        return es
+    for fid in used:
+        files[fid]["sub"] = dict(base="CircuitTemplate", circuits=[], nodes=[["p0", ref(fid, "pop")], ["p1", ref(fid, "pop2")]],
+                                 edges=edges_for(fid, [("p0", "pop"), ("p1", "pop2")]))
+    if rng.random() < 0.35:
+        subs = [[f"s{i}", ref(top_file, "sub", 0.6)] for i in range(rng.randint(1, 2))]
+        allnodes = [(f"{k}/p0", "pop") for k, _ in subs] + [(f"{k}/p1", "pop2") for k, _ in subs]
+        top = dict(base="CircuitTemplate", circuits=subs, nodes=[], edges=edges_for(top_file, allnodes))
+    else:
+        nodes, kinds = [], []
+        for i in range(rng.randint(2, 4)):
+            kind = rng.choice(["pop", "pop", "pop2"])
+            # the pattern of seed m5: a reference into another file followed by a bare reference to the same name
+            r = ref(top_file, kind, 0.7 if i == 0 else 0.3)
+            nodes.append([f"n{i}", r]); kinds.append((f"n{i}", kind))
+        top = dict(base="CircuitTemplate", circuits=[], nodes=nodes, edges=edges_for(top_file, kinds))
+    files[top_file]["net"] = top
+    if rng.random() < 0.08:                 # a reference to a template that only exists elsewhere: from_yaml must raise
+        del files[top_file][rng.choice(["pop", "pop2", "et"])]
+    points = [[str(Fr(rng.randint(-8, 8), 8)) for _ in range(6)] for _ in range(2)]
+    return dict(kind="mfile", files=files, top=[top_file, "net"], points=points)
+
 # ====================================================================================================
 # model side (Coq terms)
 # ====================================================================================================
@@ -501,9 +799,10 @@ Definition L := list_ascii_of_string.
 Definition ostr_eqb (a : option str) (b : option str) := match a, b with Some x, Some y => str_eqb x y | None, None => true | _, _ => false end.
 (* ---- rep ---- *)
 Definition repI (c : str * str * str * bool * bool) := let '(eq, term, rep, rhs, lhs) := c in replace_flags is_delim term rep rhs lhs eq.
-Definition repS (c : str * str * str * bool * bool) := let '(eq, term, rep, rhs, lhs) := c in Some (replace_words_sided is_delim term rep rhs lhs eq).
+Definition repS (c : str * str * str * bool * bool) := let '(eq, term, rep, rhs, lhs) := c in Some (replace_words_sided is_delim_spec term rep rhs lhs eq).
+Definition rep_prime (c : str * str * str * bool * bool) := let '(eq, term, rep, rhs, lhs) := c in fixed_prime || prime_free eq.
 Definition rep_guard (c : str * str * str * bool * bool) := let '(eq, term, rep, rhs, lhs) := c in Bool.eqb rhs lhs.
-Definition rep_plain (c : str * str * str * bool * bool) := let '(eq, term, rep, rhs, lhs) := c in term_ok is_delim term.
+Definition rep_plain (c : str * str * str * bool * bool) := let '(eq, term, rep, rhs, lhs) := c in term_ok is_delim_spec term.
 (* ---- exhaustive ---- *)
 Fixpoint strs (alpha : list ascii) (l : nat) : list str :=
   match l with O => [[]] | S l' => flat_map (fun c => map (cons c) (strs alpha l')) alpha end.
@@ -527,7 +826,7 @@ Fixpoint chainI (eqs : list str) (vars : list (str * str)) (ls : list link) : op
     end
   end.
 Definition update_equations_spec (base : list str) (u : eq_update) : list str :=
-  match u with EqKeep => base | EqList [] => base | EqList l => l | EqEdit e add => map (update_equation_spec is_delim e) base ++ add end.
+  match u with EqKeep => base | EqList [] => base | EqList l => l | EqEdit e add => map (update_equation_spec is_delim_spec e) base ++ add end.
 Fixpoint chainS (eqs : list str) (vars : list (str * str)) (ls : list link) : list lout :=
   match ls with
   | [] => []
@@ -541,8 +840,23 @@ Definition updI (c : list str * list (str * str) * list link * list lout) :=
   let '(eqs, vars, ls, exp) := c in match chainI eqs vars ls with Some r => list_eqb lout_eqb r exp | None => false end.
 Definition updS (c : list str * list (str * str) * list link * list lout) :=
   let '(eqs, vars, ls, exp) := c in list_eqb lout_eqb (chainS eqs vars ls) exp.
-Definition link_plain (l : link) := match fst l with EqEdit e _ => edit_ok is_delim e | _ => true end.
+Definition link_plain (l : link) := match fst l with EqEdit e _ => edit_ok is_delim_spec e | _ => true end.
 Definition upd_plain (c : list str * list (str * str) * list link * list lout) := let '(eqs, vars, ls, exp) := c in forallb link_plain ls.
+(* ---- reuse of one edit dictionary (D99) ---- *)
+Definition rout := (list str * list (str * str))%type.
+Definition rcase := (list str * list (str * str) * eq_update * list (str * str) * nat * list rout)%type.
+Definition orout_eqb (a : option rout) (b : rout) := match a with Some (e, v) => list_eqb str_eqb e (fst b) && vars_eqb v (snd b) | None => false end.
+Fixpoint all2 {A B} (f : A -> B -> bool) (la : list A) (lb : list B) : bool :=
+  match la, lb with [], [] => true | a :: la', b :: lb' => f a b && all2 f la' lb' | _, _ => false end.
+Definition reuseI (c : rcase) := let '(eqs, vars, u, vu, k, exp) := c in all2 orout_eqb (derive_reusing str is_delim k eqs vars u vu) exp.
+Definition reuseS (c : rcase) := let '(eqs, vars, u, vu, k, exp) := c in
+  all2 orout_eqb (repeat (Some (update_equations_spec eqs u, filter (fun kv => used (update_equations_spec eqs u) (fst kv)) (update_map str vars vu))) k) exp.
+Definition reuse_g (c : rcase) := let '(eqs, vars, u, vu, k, exp) := c in fixed_D99 || reuse_guard k u.
+Definition reuse_plain (c : rcase) := let '(eqs, vars, u, vu, k, exp) := c in link_plain (u, vu).
+(* ---- template sets over several files ---- *)
+Definition mcase := (fileset * (str * str) * option den)%type.
+Definition mfileI (p : mcase) := let '(fs, top, d) := p in
+  match mdenote fs (fst top) (snd top), d with Some a, Some b => den_eqb a b | None, None => true | _, _ => false end.
 (* ---- yaml ---- *)
 Definition yamlStore (p : circ * store * den * option den) := let '(c, st, d0, d1) := p in store_eqb (snd (dump c)) st.
 Definition yamlDen0 (p : circ * store * den * option den) := let '(c, st, d0, d1) := p in den_eqb (denote c) d0.
@@ -620,11 +934,14 @@ def P8(v):
     return int(x)
 
 def PY_SPEC(s):
-    """harness-side reading of a variable definition (the real-side reading uses PyRates' _parse_defaults)"""
+    """harness-side reading of a variable definition in all its forms: 2.0, 3, "1.5", input, input(0.0), variable(float), ...
+    (the real-side reading uses PyRates' _parse_defaults)"""
     if isinstance(s, (int, float)):
         return "VConst", P8(s)
+    s = s.replace(" ", "")
     kind = "VIn" if s.startswith("input") else "VOut" if s.startswith("output") else "VState" if s.startswith("variable") else "VConst"
-    return kind, P8(s[s.index("(") + 1:-1] if "(" in s else s)
+    inner = s[s.index("(") + 1:-1] if "(" in s else (s if kind == "VConst" else "")
+    return kind, 0 if inner in ("", "float") else P8(inner)
 
 def c_dnode(dn):
     return clist([f"({cs(n)}, {csl(eqs)}, {clist([f'({cs(v)}, {cspec(k, x)})' for v, k, x in vs])})" for n, eqs, vs in dn])
@@ -647,6 +964,35 @@ def c_store(st):
             es = clist([f"({cs(s)}, {cs(t)}, {'(@None str)' if tp is None else '(Some ' + cs(tp) + ')'}, {c_attrs(at)})" for s, t, tp, at in e[4]])
             out.append(f"({cs(e[0])}, ECirc {kv(e[2])} {kv(e[3])} {es})")
     return clist(out)
+
+def coq_reuse(case, out):
+    b = case["base"]
+    exp = clist([f"({csl(d['equations'])}, {cvars(d['variables'])})" for d in out["derived"]])
+    return (f"({csl(b['equations'])}, {cvars(b['variables'].items())}, {coq_equpd(case['edit'])}, {cvars((case['variables'] or {}).items())}, "
+            f"{cnat(case['times'])}, {exp})")
+
+def c_ref(r):
+    return "None" if r is None else f"(RBare {cs(r[1])})" if r[0] == "bare" else f"(RFile {cs(r[1])} {cs(r[2])})"
+
+def coq_mfile(case, out):
+    files = []
+    for fid, tpls in case["files"].items():
+        es = []
+        for name, e in tpls.items():
+            if e["base"] == "OperatorTemplate":
+                vs = clist([f"({cs(v)}, {cspec(*PY_SPEC(s))})" for v, s in e["variables"].items()])
+                es.append(f"({cs(name)}, MOp {csl(e['equations'])} {vs})")
+            elif e["base"] in ("NodeTemplate", "EdgeTemplate"):
+                ops = clist([f"({c_ref(r)}, ({c_attrs([(k, P8(v)) for k, v in u.items()])} : upd))" for r, u in e["operators"]])
+                es.append(f"({cs(name)}, MNode {cbool(e['base'] == 'EdgeTemplate')} {ops})")
+            else:
+                kv = lambda l: "(" + clist([f"({cs(k)}, {c_ref(r)})" for k, r in l]) + " : list (str * ref))"
+                eds = clist([f"({cs(s)}, {cs(t)}, {'(@None ref)' if r is None else '(Some ' + c_ref(r) + ')'}, {c_attrs([(k, P8(v)) for k, v in at.items()])})"
+                             for s, t, r, at in e["edges"]])
+                es.append(f"({cs(name)}, MCirc {kv(e['circuits'])} {kv(e['nodes'])} ({eds} : list medge))")
+        files.append(f"({cs(fid)}, {clist(es)})")
+    d = "(@None den)" if out.get("walk_loaded") is None else f"(Some {c_den(out['walk_loaded'])})"
+    return f"({clist(files)}, ({cs(case['top'][0])}, {cs(case['top'][1])}), {d})"
 
 def coq_yaml(case, out):
     d1 = "(@None den)" if out.get("walk1") is None else f"(Some {c_den(out['walk1'])})"
@@ -695,6 +1041,8 @@ def check(ctx):
     problem = proof_problem(pr)
     quick = ctx.tier == "quick"
     n_rep, n_upd, n_yaml = (400, 160, 72) if quick else (3000, 1200, 500)
+    n_reuse, n_npy, n_mfile = (60, 6, 40) if quick else (400, 30, 300)
+    sw = read_switches()
     big_len, flag_len, small_len = (6, 5, 4) if quick else (7, 6, 5)
     if ctx.replay:
         rp = json.load(open(ctx.replay))
@@ -707,6 +1055,10 @@ def check(ctx):
                   for t in TERMS for r in (["X", ""] if quick else ["X", "", "rr"])]
         cases += [gen_rep_case(ctx.rng) for _ in range(n_rep)]
         cases += [gen_upd_case(ctx.rng) for _ in range(n_upd)]
+        cases += [gen_reuse_case(ctx.rng) for _ in range(n_reuse)]
+        cases += [gen_npy_case(ctx.rng) for _ in range(n_npy)]
+        cases += [gen_mfile_case(ctx.rng) for _ in range(n_mfile)]
+        cases += [dict(kind="err", what=w) for w in ERR_EXPECTED]
         cases += [gen_yaml_case(ctx.rng) for _ in range(n_yaml)]
     # exhaustive jobs first: their mismatching inputs become single cases with their own replay files
     outs = [None] * len(cases)
@@ -751,10 +1103,12 @@ def check(ctx):
     idx = [i for i, c in enumerate(cases) if c["kind"] == "rep" and i not in crashed]
     if idx:
         items = [f"({coq_rep(cases[i])}, {cs(outs[i])})" for i in idx]
-        bI, bS, g, pl = eval_lists(ctx, "rep", "(str * str * str * bool * bool) * str", ["(fun p => ostr_eqb (repI (fst p)) (Some (snd p)))", "(fun p => ostr_eqb (repS (fst p)) (Some (snd p)))",
-                                                   "(fun p => rep_guard (fst p))", "(fun p => rep_plain (fst p))"], items, 400)
+        bI, bS, g, pl, pr = eval_lists(ctx, "rep", "(str * str * str * bool * bool) * str", ["(fun p => ostr_eqb (repI (fst p)) (Some (snd p)))", "(fun p => ostr_eqb (repS (fst p)) (Some (snd p)))",
+                                                   "(fun p => rep_guard (fst p))", "(fun p => rep_plain (fst p))", "(fun p => rep_prime (fst p))"], items, 400)
         for k in bI:
             bad_impl.append(idx[k])
+        for k in pr:                         # the derivative mark ' occurs and is not (yet) a delimiter of the code
+            gv.setdefault(idx[k], []).append("prime_free")
         noplain = set(pl)
         for k in bS:                         # terms containing delimiters are outside the statement (no Spec); Impl still compared
             if k not in noplain:
@@ -770,10 +1124,65 @@ def check(ctx):
         for k in bS:
             if k not in noplain:
                 bad_spec.append(idx[k])
+        if not sw.get("fixed_prime"):
+            for i in idx:
+                if "'" in json.dumps(cases[i]):
+                    gv.setdefault(i, []).append("prime_free")
         for k, i in enumerate(idx):          # YAML `base:` chain = Python update_template chain (both are the real code)
             o = outs[i]
             if (o["yaml"]["equations"] != o["links"][-1]["equations"] or o["yaml"]["variables"] != o["links"][-1]["variables"]):
                 bad_spec.append(i)
+    # ---- reuse (D99)
+    idx = [i for i, c in enumerate(cases) if c["kind"] == "reuse" and i not in crashed]
+    if idx:
+        items = [coq_reuse(cases[i], outs[i]) for i in idx]
+        bI, bS, g, pl = eval_lists(ctx, "reuse", "rcase", ["reuseI", "reuseS", "reuse_g", "reuse_plain"], items, 150)
+        noplain = set(pl)
+        for k in bI:
+            bad_impl.append(idx[k])
+        for k in g:
+            gv.setdefault(idx[k], []).append("edit_dict_not_reused")
+        for k in bS:
+            if k not in noplain:
+                bad_spec.append(idx[k])
+        for k, i in enumerate(idx):          # Spec: the caller's dictionary is left as it was; Impl: 'add' is popped unless repaired
+            kept = outs[i]["edit_after"] == cases[i]["edit"]
+            popped = outs[i]["edit_after"] == {kk: v for kk, v in cases[i]["edit"].items() if kk != "add"}
+            if not kept:
+                bad_spec.append(i)
+                gv.setdefault(i, [])
+                if "add" in cases[i]["edit"] and "edit_dict_not_reused" not in gv[i] and not sw.get("fixed_D99"):
+                    gv[i].append("edit_dict_not_reused")
+            if not (kept if (sw.get("fixed_D99") or "add" not in cases[i]["edit"]) else popped):
+                bad_impl.append(i)
+    # ---- numpy values
+    for i, c in enumerate(cases):
+        if c["kind"] != "npy" or i in crashed:
+            continue
+        o = outs[i]
+        ok = "dump_error" not in o and o.get("vf1") == o["vf0"]
+        if not ok:
+            bad_spec.append(i)
+            gv.setdefault(i, []).append("python_values")
+        expected = ok if sw.get("fixed_numpy") else o.get("dump_error") == "RepresenterError"
+        if not expected:
+            bad_impl.append(i)
+    # ---- loud failures
+    for i, c in enumerate(cases):
+        if c["kind"] == "err" and i not in crashed and outs[i] != ERR_EXPECTED[c["what"]]:
+            bad_spec.append(i); bad_impl.append(i)
+    # ---- template sets over several files
+    idx = [i for i, c in enumerate(cases) if c["kind"] == "mfile" and i not in crashed]
+    if idx:
+        items = [coq_mfile(cases[i], outs[i]) for i in idx]
+        (bI,) = eval_lists(ctx, "mfile", "mcase", ["mfileI"], items, 25)
+        for k in bI:
+            bad_impl.append(idx[k]); bad_spec.append(idx[k])          # the multi-file model is Spec and Impl at once
+        for i in idx:                           # YAML-defined = Python-defined: same templates, same vector field
+            o = outs[i]
+            if o.get("walk_loaded") != o.get("walk_built") or o.get("vf_loaded") != o.get("vf_built"):
+                bad_spec.append(i)
+        stats["mfile_load_errors_predicted"] = sum(1 for i in idx if outs[i].get("walk_loaded") is None)
     # ---- yaml
     idx = [i for i, c in enumerate(cases) if c["kind"] == "yaml" and i not in crashed]
     if idx:
@@ -802,7 +1211,7 @@ def check(ctx):
     # which the real code does NOT do what the model says is a different failure and is not attributed to the finding
     for i in bad_impl:
         gv.pop(i, None)
-    kinds = {k: sum(1 for c in cases if c["kind"] == k) for k in ("exh", "rep", "upd", "yaml")}
+    kinds = {k: sum(1 for c in cases if c["kind"] == k) for k in ("exh", "rep", "upd", "reuse", "npy", "mfile", "err", "yaml")}
     ctx.note(f"E1: {kinds}; exhaustive: {stats['exhaustive_real_calls']} calls of the real replace, {stats['exhaustive_coq_evaluations']} evaluations of the "
              f"Coq model; impl-vs-Impl mismatches {len(bad_impl)}, impl-vs-Spec mismatches {len(bad_spec)} (outside guards: "
              f"{sum(1 for i in bad_spec if gv.get(i))}), harness/worker errors {len(crashed)}")
@@ -820,6 +1229,10 @@ def check(ctx):
         r = run_impl(ctx, "c15", "impl", [w], nworkers=1)[0]
         if w["kind"] == "rep":
             return r != py_words_sided(w["eq"], w["term"], w["rep"], w["rhs"], w["lhs"])
+        if w["kind"] == "reuse":
+            return r["edit_after"] != w["edit"] or any(d != r["derived"][0] for d in r["derived"])
+        if w["kind"] == "npy":
+            return "dump_error" in r or r.get("vf1") != r["vf0"]
         return not yaml_spec_ok(r)
     conclude(ctx, cases=cases, impl_out=outs, bad_spec=bad_spec, bad_impl=bad_impl, crashed=crashed, problem=problem, guard_viol=gv,
              spec_name="the C15 specification (word-wise substitution / override algebra / denotation-preserving round trip)",
@@ -833,6 +1246,10 @@ def check(ctx):
             if w != c["eq"] and w != c["eq"].replace(c["term"], c["rep"]):
                 nt.add(canon(c))
         if c["kind"] == "upd" and any(l["equations"] != c["base"]["equations"] for l in outs[i]["links"]):
+            nt.add(canon(c))
+        if c["kind"] == "reuse" and c["times"] >= 2 and c["edit"].get("add"):
+            nt.add(canon(c))
+        if c["kind"] == "mfile" and '"file"' in json.dumps(c["files"]) and '"bare"' in json.dumps(c["files"][c["top"][0]]["net"]):
             nt.add(canon(c))
         if c["kind"] == "yaml" and (len(c["tree"]["nodes"]) + sum(len(f["nodes"]) for _, f in c["tree"]["subs"]) >= 2) and \
                 (c["tree"]["edges"] or any(f["edges"] for _, f in c["tree"]["subs"])):
@@ -856,7 +1273,7 @@ def check(ctx):
                                    "Python transcriptions of Replace.replace_words / Replace.loopA; the transcriptions are tied to the Coq model only through the "
                                    "smaller space, where model = real = transcription."),
                               impl_vs_model_mismatches=len(bad_impl), impl_vs_spec_mismatches=len(bad_spec),
-                              outside_guards={"no_critical_rename": sum(1 for v in gv.values() if "no_critical_rename" in v)},
+                              outside_guards={g: sum(1 for v in gv.values() if g in v) for g in sorted({g for v in gv.values() for g in v})}, switches=sw,
                               former_finding_classes_exercised=exercised),
                    trusted_base=["numpy float64 arithmetic is exact on the generated dyadic data (vector fields are compared as exact rationals)",
                                  "harness reading of template objects (walk), of the written YAML file (read_store, ruamel safe loader) and of variable "
